@@ -18,9 +18,10 @@ LEVEL = "exploration"
 TECHNIQUE = ("generated template sets with one marked single-line failing construct; expected line "
              "counted by the harness from the source text; traceback.extract_tb / "
              "TemplateSyntaxError.lineno compared")
-RULE = ("case = (site kind [13 raising forms: call, filter, test, attribute, set, if, for, with, "
-        "print, do, division by zero, StrictUndefined chain, missing include/import | 20 malformed "
-        "forms], optional '-' whitespace control on the site tag, nesting chain of 0-4 wrappers "
+RULE = ("case = (site kind [40 single-line raising forms: calls in {{ }}/set/if/elif/for/for-filter/"
+        "with/print/do/call/filter-block/set-block/macro default/include/import/autoescape/trans "
+        "arguments, raising filter/test/attribute/item/method, division by zero, StrictUndefined "
+        "chains, missing include/import | 22 single-line malformed forms], optional '-' whitespace control on the site tag, nesting chain of 0-4 wrappers "
         "[if/else, for, with, macro+call, call block, filter block, set block, autoescape, block, "
         "include, imported macro, child block of a parent, parent block (+super), parent "
         "top-level], filler before/after at every level [text lines, blank lines, multi-line tags/"
